@@ -617,7 +617,10 @@ class DEVSSimulator(Simulator[TIME], Generic[TIME]):
                     and not self._run_until_including) 
                     or self.eventlist().is_empty()):
                 self._simulator_time = self._run_until_time
-                self._replication_state = ReplicationState.ENDING
+                # the replication only ends when the bound reached its end;
+                # a bounded run that stops earlier stays resumable
+                if self._run_until_time >= self._replication.end_sim_time:
+                    self._replication_state = ReplicationState.ENDING
                 self._run_state = RunState.STOPPING
                 return;
             # get the first event
